@@ -23,6 +23,8 @@ type SrcFile struct {
 }
 
 type FcSrv struct {
+	bin  string
+	env  []string
 	c    *Ctx
 	cmd  *exec.Cmd
 	in   io.WriteCloser
@@ -53,15 +55,18 @@ type srvResp struct {
 	Died   bool              `json:"-"` // the server process died on this request (fatal error / hang)
 }
 
-func (c *Ctx) StartFcSrv() *FcSrv {
-	s := &FcSrv{c: c}
+func (c *Ctx) StartFcSrv() *FcSrv { return c.StartFcSrvBin("fcsrv") }
+
+// StartFcSrvBin starts a server from another hooked binary (e.g. fcperm) with extra environment.
+func (c *Ctx) StartFcSrvBin(bin string, env ...string) *FcSrv {
+	s := &FcSrv{c: c, bin: bin, env: env}
 	s.start()
 	return s
 }
 
 func (s *FcSrv) start() {
-	cmd := exec.Command(filepath.Join(s.c.Bin, "fcsrv"))
-	cmd.Env = append(os.Environ(), "FC_VERIF_SERVER=1", "GOMAXPROCS=2")
+	cmd := exec.Command(filepath.Join(s.c.Bin, s.bin))
+	cmd.Env = append(append(os.Environ(), "FC_VERIF_SERVER=1", "GOMAXPROCS=2"), s.env...)
 	in, _ := cmd.StdinPipe()
 	out, _ := cmd.StdoutPipe()
 	cmd.Stderr = nil
